@@ -18,7 +18,9 @@
      are derived; heights above the current one are buffered (futureMessages), lower heights are
      rejected, StartNewHeight drops everything at or below the finished height.
    - thresholds (vote_counter.go:f, q): q = ceil(2N/3) computed as d = 2N; d/3 (+1 if d%3 > 0);
-     f = (N-1)/3; quorum tests are ">= q", the skip-round test is "> f".
+     f = (N-1)/3; quorum tests are ">= q", the skip-round test is "> f".  N is the total voting
+     power OF THE CURRENT HEIGHT (recomputed by New / StartNewHeight); a vote weighs the power its
+     sender has at the vote's height; the proposer schedule depends on the height as well.
    - rule loop (process.go:process/processLoop): rules in the order L22, L28, L34, L36, L44, L47,
      L49, L55, re-evaluated to a fixed point; L49 looks only at the proposal of the round of the
      message being processed (current round for start/timeouts); L55 only at that round; the
@@ -40,7 +42,8 @@ EXTENDS Integers, Sequences, FiniteSets, TLC
 
 CONSTANTS
   NV,              \* validators are 1..NV
-  Power,           \* [1..NV -> positive Nat]  voting power
+  PowerOf(_, _),   \* (height, validator) -> voting power: the validator set's stakes may change
+                   \* from one height to the next (Validators.ValidatorVotingPower(height, addr))
   MaxVal,          \* message value ids are 1..MaxVal; 0 is nil; application values may be larger
   MaxRound,
   ProposerOf(_, _),  \* (height, round) -> validator
@@ -55,14 +58,17 @@ PROPOSE == 0
 PREVOTE == 1
 PRECOMMIT == 2
 
-RECURSIVE SumPower(_)
-SumPower(S) == IF S = {} THEN 0 ELSE LET x == CHOOSE y \in S : TRUE IN Power[x] + SumPower(S \ {x})
+\* a vote of height h weighs PowerOf(h, sender) (votecounter.AddPrevote/AddPrecommit/AddProposal)
+RECURSIVE SumPower(_, _)
+SumPower(h, S) == IF S = {} THEN 0 ELSE LET x == CHOOSE y \in S : TRUE IN PowerOf(h, x) + SumPower(h, S \ {x})
 
-TotalPower == SumPower(Vals)
+\* thresholds of height h: vote_counter.go New / StartNewHeight recompute them from
+\* Validators.TotalVotingPower(h) every time the height changes
+TotalPower(h) == SumPower(h, Vals)
 \* votecounter.q : d := 2N; q := d/3; if d%3 > 0 { q++ }
-Q == LET d == 2 * TotalPower IN (d \div 3) + (IF d % 3 > 0 THEN 1 ELSE 0)
+Q(h) == LET d == 2 * TotalPower(h) IN (d \div 3) + (IF d % 3 > 0 THEN 1 ELSE 0)
 \* votecounter.f : (N-1)/3
-F == (TotalPower - 1) \div 3
+F(h) == (TotalPower(h) - 1) \div 3
 
 Max2(a, b) == IF a >= b THEN a ELSE b
 
@@ -100,14 +106,15 @@ InitProc(p, h) ==
 PropAt(s, h, r) ==
   IF \E x \in s.props : x.h = h /\ x.r = r THEN CHOOSE x \in s.props : x.h = h /\ x.r = r ELSE NoProp
 VotesAt(s, h, r) == {y \in s.votes : y.h = h /\ y.r = r}
-CountVote(s, h, k, r, id) == SumPower({y.s : y \in {z \in VotesAt(s, h, r) : z.k = k /\ z.id = id}})
-CountAny(s, k, r) == SumPower({y.s : y \in {z \in VotesAt(s, s.h, r) : z.k = k}})
+CountVote(s, h, k, r, id) == SumPower(h, {y.s : y \in {z \in VotesAt(s, h, r) : z.k = k /\ z.id = id}})
+CountAny(s, k, r) == SumPower(s.h, {y.s : y \in {z \in VotesAt(s, s.h, r) : z.k = k}})
 FutureSenders(s, r) ==
-  SumPower({y.s : y \in VotesAt(s, s.h, r)}
-           \cup (IF PropAt(s, s.h, r) # NoProp THEN {ProposerOf(s.h, r)} ELSE {}))
-HasQuorumForVote(s, k, r, id) == CountVote(s, s.h, k, r, id) >= Q
-HasQuorumForAny(s, k, r) == CountAny(s, k, r) >= Q
-HasNonFaultyFutureMessage(s, r) == FutureSenders(s, r) > F
+  SumPower(s.h, {y.s : y \in VotesAt(s, s.h, r)}
+                \cup (IF PropAt(s, s.h, r) # NoProp THEN {ProposerOf(s.h, r)} ELSE {}))
+\* every test compares with the thresholds of the machine's CURRENT height
+HasQuorumForVote(s, k, r, id) == CountVote(s, s.h, k, r, id) >= Q(s.h)
+HasQuorumForAny(s, k, r) == CountAny(s, k, r) >= Q(s.h)
+HasNonFaultyFutureMessage(s, r) == FutureSenders(s, r) > F(s.h)
 
 VoteRec(k, h, r, sender, id) == [k |-> k, h |-> h, r |-> r, s |-> sender, id |-> id]
 AddVote(s, k, h, r, sender, id) == [s EXCEPT !.votes = @ \cup {VoteRec(k, h, r, sender, id)}]
@@ -200,7 +207,7 @@ DoVote(s, m) ==
   ELSE LET s1 == AddVote(s, m.k, m.h, m.r, m.s, m.v) IN
        IF ~s.started THEN <<s1, <<>>>>
        ELSE IF m.k = "precommit" /\ m.v # Nil /\ m.h > s.h /\ m.h > s.lts
-               /\ CountVote(s1, m.h, "precommit", m.r, m.v) >= Q
+               /\ CountVote(s1, m.h, "precommit", m.r, m.v) >= Q(s1.h)   \* powers of m.h, quorum of s.h
        THEN \* triggerSync: the precommit is NOT logged
             LET lq == Max2(s1.lq, m.h)
                 start == Max2(s1.lts + 1, s1.h) IN
@@ -227,7 +234,9 @@ B(b) == IF b THEN 1 ELSE 0
 
 ProjState(s) ==
   [h |-> s.h, round |-> s.round, step |-> s.step, lv |-> s.lv, lr |-> s.lr, vv |-> s.vv, vr |-> s.vr,
-   tpv |-> s.tpv, tpc |-> s.tpc, flag |-> s.flag, started |-> s.started, lts |-> s.lts, lq |-> s.lq]
+   tpv |-> s.tpv, tpc |-> s.tpc, flag |-> s.flag, started |-> s.started, lts |-> s.lts, lq |-> s.lq,
+   \* the thresholds the vote counter holds for the current height
+   tot |-> TotalPower(s.h), f |-> F(s.h), q |-> Q(s.h)]
 
 \* per round of the current height: proposal value / valid round, "any" quorums, skip-round test,
 \* per-id prevote and precommit quorums for ids 0..MaxVal — everything the rules can ask
